@@ -417,8 +417,9 @@ class EndToEnd(EnumContract):
         if tr:
             try:
                 tcube = self._cube(dims, rs, weighted, tr)
-                for p0, pt in zip(parts, tcube.partitions):
+                for k_, (p0, pt) in enumerate(zip(parts, tcube.partitions)):
                     self._check_transformed(p0, pt, rd, cd, bad)
+                    self._check_pruning(pt, rd, cd, subsets[k_], tr, ri, ci, bad)
                     if len(dims) == 2:
                         self._check_merge(pt, dims, rs, weighted, tr, bad)
                 if len(dims) == 2:
@@ -462,6 +463,15 @@ class EndToEnd(EnumContract):
                     bad.add("transform-invariance")
             except Exception:
                 bad.add("transform-invariance")
+        # C16: the column index of every inserted subtotal cell is NaN
+        try:
+            ci_ = np.asarray(pt.column_index, dtype=float)
+            ins_r = [k for k, o in enumerate(ro) if o < 0]
+            ins_c = [k for k, o in enumerate(co) if o < 0]
+            if (ins_r and not np.all(np.isnan(ci_[ins_r, :]))) or (ins_c and not np.all(np.isnan(ci_[:, ins_c]))):
+                bad.add("column-index")
+        except Exception:
+            bad.add("column-index")
         # more matrices and the row-wise / column-wise vectors (margins, bases, scale statistics)
         for name in ("row_std_err", "column_std_err", "table_std_err", "pvals", "population_counts", "population_counts_moe",
                      "column_proportions_moe", "row_unweighted_bases", "table_unweighted_bases", "column_weighted_bases",
@@ -500,6 +510,65 @@ class EndToEnd(EnumContract):
                 bad.add("transform-invariance")
         # pruning: hidden iff asked, pruned iff empty by unweighted counts
         u0 = np.asarray(p0.unweighted_counts, dtype=float)
+
+    def _check_pruning(self, pt, rd, cd, sub, tr, ri, ci, bad):
+        """C09: a base vector is absent iff hidden, or pruning is on for its dimension and it is
+        empty by *unweighted* counts; an MR item answered but never selected is not empty, except
+        against another MR dimension; subtotals vanish only when the opposing dimension is pruned
+        and all its base vectors are empty"""
+        R, C = valid_elems(rd), valid_elems(cd)
+        if not R or not C:
+            return
+
+        def n_(pred):
+            return wsum(sub, pred, False)
+
+        def eligible(d, a, e, other_is_mr):
+            """respondent counts towards the pruning base of element e of dimension d"""
+            if d["kind"] != "MR":
+                return a == e
+            return a[e] == SEL if other_is_mr else a[e] != MIS
+
+        def empty(d, dpos, e, od, opos, OV):
+            omr = od["kind"] == "MR"
+            return n_(lambda r: eligible(d, r["a"][dpos], e, omr) and any(valid_on(od, r["a"][opos], o) for o in OV)) == 0
+
+        rt, ct = tr.get("rows_dimension") or {}, tr.get("columns_dimension") or {}
+
+        def hidden(d, t):
+            out = set()
+            if d["kind"] != "MR":
+                V = valid_elems(d)
+                for k, v in (t.get("elements") or {}).items():
+                    if v.get("hide"):
+                        out |= {n for n, i in enumerate(V) if d["cats"][i]["id"] == int(k)}
+            return out
+
+        r_empty = [empty(rd, ri, i, cd, ci, C) for i in R]
+        c_empty = [empty(cd, ci, j, rd, ri, R) for j in C]
+        exp_r = {n for n in range(len(R)) if n not in hidden(rd, rt) and not (rt.get("prune") and r_empty[n])}
+        exp_c = {n for n in range(len(C)) if n not in hidden(cd, ct) and not (ct.get("prune") and c_empty[n])}
+        ro, co = [int(o) for o in pt.row_order()], [int(o) for o in pt.column_order()]
+        if {o for o in ro if o >= 0} != exp_r or {o for o in co if o >= 0} != exp_c:
+            bad.add("pruning")
+
+        def n_alive(d, t):
+            if d["kind"] == "MR":
+                return 0
+            ids = [d["cats"][i]["id"] for i in valid_elems(d)]
+            k = 0
+            for one in t.get("insertions") or []:
+                pos = (one.get("kwargs") or {}).get("positive") or one.get("args", [])
+                neg = (one.get("kwargs") or {}).get("negative", [])
+                if set(pos + neg) & set(ids):
+                    k += 1
+            return k
+
+        sr, sc = n_alive(rd, rt), n_alive(cd, ct)
+        exp_sr = set() if (ct.get("prune") and all(c_empty)) else set(range(-sr, 0))
+        exp_sc = set() if (rt.get("prune") and all(r_empty)) else set(range(-sc, 0))
+        if {o for o in ro if o < 0} != exp_sr or {o for o in co if o < 0} != exp_sc:
+            bad.add("pruning")
 
     def _check_merge(self, pt, dims, rs, weighted, tr, bad):
         """C04: a subtotal without subtrahends equals the category obtained by merging its
